@@ -110,14 +110,19 @@ func (r *RibEntry) pruneIfEmpty() {
 }
 
 func (r *RibEntry) updateNexthopsEnc() {
-	FibStrategyTable.ClearNextHopsEnc(r.Name)
+	// Path-filler nodes have no name (and no FIB entry of their own)
+	if r.Name != nil {
+		FibStrategyTable.ClearNextHopsEnc(r.Name)
+	}
 
 	// All routes including parents if needed
 	routes := append([]*Route{}, r.routes...)
 
 	// Get all possible nexthops for parents that are inherited,
-	// unless we have the capture flag set
-	if !r.HasCaptureRoute() {
+	// unless we have the capture flag set. A prefix without routes of
+	// its own inherits nothing and gets no FIB entry: lookups fall
+	// through to the nearest shorter prefix that has routes.
+	if len(r.routes) > 0 && !r.HasCaptureRoute() {
 		for entry := r; entry != nil; entry = entry.parent {
 			for _, route := range entry.routes {
 				if route.HasChildInheritFlag() {
